@@ -75,6 +75,16 @@ pub(crate) struct ShapeIndex {
 }
 
 impl ShapeIndex {
+    /// Offset in bytes of the record, the index file stores it in 16-bit words
+    fn byte_offset(self) -> Result<u64, Error> {
+        u64::try_from(i64::from(self.offset) * 2).map_err(|_| {
+            Error::IoError(std::io::Error::new(
+                std::io::ErrorKind::InvalidData,
+                "negative shape offset in the index file",
+            ))
+        })
+    }
+
     pub(crate) fn write_to<W: Write>(self, dest: &mut W) -> std::io::Result<()> {
         dest.write_i32::<BigEndian>(self.offset)?;
         dest.write_i32::<BigEndian>(self.record_size)?;
@@ -86,7 +96,9 @@ impl ShapeIndex {
 fn read_index_file<T: Read>(mut source: T) -> Result<Vec<ShapeIndex>, Error> {
     let header = header::Header::read_from(&mut source)?;
 
-    let num_shapes = ((header.file_length * 2) - header::HEADER_SIZE) / INDEX_RECORD_SIZE as i32;
+    // The length comes from the file, it may be anything
+    let num_bytes = i64::from(header.file_length) * 2 - i64::from(header::HEADER_SIZE);
+    let num_shapes = (num_bytes / INDEX_RECORD_SIZE as i64).max(0);
     let mut shapes_index = Vec::<ShapeIndex>::with_capacity(num_shapes as usize);
     for _ in 0..num_shapes {
         let offset = source.read_i32::<BigEndian>()?;
@@ -104,7 +116,13 @@ fn read_one_shape_as<T: Read, S: ReadableShape>(
     mut source: &mut T,
 ) -> Result<(record::RecordHeader, S), Error> {
     let hdr = record::RecordHeader::read_from(&mut source)?;
-    let record_size = hdr.record_size * 2;
+    // The size is in 16-bit words, a negative one or one that does
+    // not fit once converted to bytes cannot be the size of a record
+    let record_size = hdr
+        .record_size
+        .checked_mul(2)
+        .filter(|size| *size >= 0)
+        .ok_or(Error::InvalidShapeRecordSize)?;
     let shape = S::read_from(&mut source, record_size)?;
     Ok((hdr, shape))
 }
@@ -171,10 +189,14 @@ impl<T: Read + Seek, S: ReadableShape> ShapeIterator<'_, T, S> {
             // as some shapes may not be stored sequentially and may contain 'garbage'
             // bytes between them.
             // The index alone tells when the iteration is over.
-            let start_pos = shapes_indices.get(*self.next_index)?.offset * 2;
+            let shape_index = *shapes_indices.get(*self.next_index)?;
             *self.next_index += 1;
-            if start_pos != *self.current_pos as i32 {
-                if let Err(err) = self.source.seek(SeekFrom::Start(start_pos as u64)) {
+            let start_pos = match shape_index.byte_offset() {
+                Ok(start_pos) => start_pos,
+                Err(err) => return Some(Err(err)),
+            };
+            if start_pos != *self.current_pos as u64 {
+                if let Err(err) = self.source.seek(SeekFrom::Start(start_pos)) {
                     return Some(Err(err.into()));
                 }
                 *self.current_pos = start_pos as usize;
@@ -394,7 +416,7 @@ impl<T: Read + Seek> ShapeReader<T> {
             _shape: std::marker::PhantomData,
             source: &mut self.source,
             current_pos: &mut self.current_pos,
-            file_length: (self.header.file_length as usize) * 2,
+            file_length: (self.header.file_length.max(0) as usize) * 2,
             shapes_indices: self.shapes_index.as_deref(),
             next_index: &mut self.next_index,
             failed: false,
@@ -498,7 +520,8 @@ impl<T: Read + Seek> ShapeReader<T> {
         if let Some(ref shapes_index) = self.shapes_index {
             let offset = shapes_index
                 .get(index)
-                .map(|shape_idx| (shape_idx.offset * 2) as u64);
+                .map(|shape_idx| shape_idx.byte_offset())
+                .transpose()?;
 
             let num_shapes = shapes_index.len();
             let pos = match offset {
